@@ -401,6 +401,19 @@ def splice_fn(fn_text, spec, notes):
         return header.rstrip() + ' ' + clauses.rstrip() + ';'
     if spec.get('external'):
         return ('#[verifier::external_body]\n' + header.rstrip() + ' ' + clauses + '{ unimplemented!() }')
+    # R9: closures get their parameter types and an ensures clause (add-only annotation, keyed by ordinal)
+    if spec.get('closures'):
+        mb = mask_noncode(body)
+        cl = [m for m in re.finditer(r'\(\s*(\|[^|]*\|)', mb)]
+        if max(spec['closures']) >= len(cl):
+            raise ExtractError("lost anchor: closure ordinal %d of %s" % (max(spec['closures']), spec.get('name')))
+        for k in sorted(spec['closures'], reverse=True):
+            m = cl[k]
+            open_paren = m.start()
+            close_paren = match_close(mb, open_paren, '(', ')')
+            expr = body[m.end(1):close_paren].strip()
+            body = body[:m.start(1)] + spec['closures'][k].strip() + ' { ' + expr + ' }' + body[close_paren:]
+            mb = mask_noncode(body)
     # textual hints (optional: a lost anchor only drops the hint)
     for h in spec.get('before', []):
         occ = h['occ']; idx = -1
@@ -603,6 +616,16 @@ def process_template(path, name=None):
                             raise ExtractError("bad slice directive: %s" % d2)
                         spec.setdefault('slices', []).append({'header': sm.group(1), 'repl': sm.group(2), 'forbid': sm.group(3).split()})
                         cur = None
+                    elif d2.startswith('rewrite '):
+                        rm = re.match(r'rewrite\s+"(.*)"\s*=>\s*"(.*)"\s*$', d2)
+                        if not rm:
+                            raise ExtractError("bad rewrite directive: %s" % d2)
+                        spec.setdefault('rewrites', []).append((rm.group(1), rm.group(2)))
+                        cur = None
+                    elif d2.startswith('closure '):
+                        k = int(d2.split()[1])
+                        spec.setdefault('closures', {})[k] = ''
+                        cur = ('closure', k)
                     elif d2.startswith('slice-range '):
                         sm = re.match(r'slice-range\s+"(.*)"\s*\.\.\s*"(.*)"\s*=>\s*"(.*)"\s*\|\s*(.*)$', d2)
                         if not sm:
@@ -623,6 +646,8 @@ def process_template(path, name=None):
                         spec['loops'][cur[1]][cur[2]] += lines[i] + '\n'
                     elif cur[0] == 'before':
                         cur[1]['proof'] += lines[i] + '\n'
+                    elif cur[0] == 'closure':
+                        spec['closures'][cur[1]] += lines[i] + '\n'
                     else:
                         spec[cur[0]] += lines[i] + '\n'
                 i += 1
@@ -635,6 +660,12 @@ def process_template(path, name=None):
                 itext = itext[:mk.index('{')] + '{ }' if '{' in mk else itext
             for sl in spec.get('slices', []):
                 itext = apply_slice(itext, sl, fname)
+            for (o, n) in spec.get('rewrites', []):
+                # R10: explicit, listed textual rewrite (must match exactly once); reported in the unit notes
+                if itext.count(o) != 1:
+                    raise ExtractError("lost anchor: rewrite %r in %s" % (o, fname))
+                itext = itext.replace(o, n)
+                unit.notes.append("R10 rewrite in %s: %r => %r" % (fname, o, n))
             t = apply_rules(itext, feats)
             if spec.get('rename'):
                 t = re.sub(r'\bfn\s+%s\b' % re.escape(fname), 'fn ' + spec['rename'], t, count=1)
